@@ -1696,7 +1696,11 @@ class Apply(Elemwise):
 
     @functools.cached_property
     def _meta(self):
-        return make_meta(self.operand("meta"), parent_meta=self.frame._meta)
+        return make_meta(
+            self.operand("meta"),
+            parent_meta=self.frame._meta,
+            index=self.frame._meta.index,
+        )
 
     def _task(self, index: int):
         return (
